@@ -14,6 +14,7 @@
 //	                   finalised block = the finalised number at that time)
 //	f:<blk>:<round>    finalise block <blk> in round <round> of the current set, as lib/grandpa and
 //	                   dot/digest do: SetFinalisedHash, SetLatestRound, ApplyScheduledChanges
+//	                   (<blk> may be the finalised head itself: a later round finalising it again)
 //
 // observed:  <log shape> # <one result per prefix>   or  err:<op index>:<what>
 //
@@ -471,6 +472,8 @@ func c36Gen(r *vu.RNG, n int, emit func(string)) {
 	emit("sc i:0:n i:1:s0 i:2:n f:2:1 f:3:1")
 	emit("sc i:0:n i:1:f1 i:2:n i:3:n f:3:1")
 	emit("sc i:0:n i:0:n i:1:n i:2:n f:3:1 i:3:s1 i:5:n f:6:2")
+	emit("sc i:0:n f:1:1 f:1:2 i:1:s1 f:1:3 i:2:n f:3:4 f:3:1")
+	emit("sc f:0:1 i:0:n f:0:2 f:1:3")
 	for c := 0; c < n; c++ {
 		blocks := []c36GenBlock{{-1, 0}}
 		fin := 0
@@ -537,6 +540,11 @@ func c36Gen(r *vu.RNG, n int, emit func(string)) {
 						}
 						cand = append(cand, b)
 					}
+				}
+				// a later round finalising the finalised head again (handleFinalisedBlock returns
+				// early: only the pointer writes happen); pending changes sit on strict descendants
+				if r.Chance(1, 4) {
+					cand = []int{fin}
 				}
 				if len(cand) == 0 {
 					continue
